@@ -1,35 +1,243 @@
-//! C09 — kosaraju_scc, tarjan_scc, TarjanScc::run + node_component_index, connected_components,
-//! has_path_connecting, is_cyclic_directed, is_cyclic_undirected, is_bipartite_undirected, toposort
-//! (fresh / reused DfsSpace) and condensation, on every storage type whose trait bounds admit the
-//! call, and on `Reversed(&Graph)`.
+//! C09 — kosaraju_scc (and its deprecated alias `scc`), tarjan_scc, TarjanScc::{new, default, run,
+//! node_component_index}, connected_components, has_path_connecting, is_cyclic_directed,
+//! is_cyclic_undirected, is_bipartite_undirected, toposort (fresh / reused / cloned DfsSpace), `Cycle`
+//! and condensation, on every storage type whose trait bounds admit the call AND (wave 6) on every
+//! graph adaptor over every such type: `Reversed`, `EdgeFiltered`, `NodeFiltered` (closure and visit-map
+//! filters), `UndirectedAdaptor`, `&Frozen`, also stacked two deep.
 //!
-//! One abstract graph and one encoding per case.  Every answer is printed in abstract node ids.
+//! One abstract graph and one encoding (possibly behind an adaptor) per case.  Every answer is printed
+//! in abstract node ids.
 //!
 //!   kosaraju | tarjan            => a,b;c;d            components in the order returned
 //!   tarjanrun                    => <comps>|<x:i,..>|<comps>|<x:i,..>   one TarjanScc, run twice
 //!   cc er=<s:t,..>               => k                  er = edge_references() in iteration order
 //!   cycu er=<s:t,..>             => true|false
 //!   haspath fresh|reuse          => a:b,c;b:-;..       row a = all b with has_path_connecting(a,b)
+//!   haspath1 a b                 => <reused> <fresh>
+//!   stalepath a b                => true|false         a or b is an id that is NOT a node (a vacancy of a
+//!                                                      StableGraph, an absent GraphMap node)
 //!   cycd                         => true|false
-//!   bip <s>                      => true|false|panic   (undirected graphs only)
+//!   bip <s>                      => true|false|panic   (undirected views only)
 //!   toposort fresh|reuse         => ok a,b,c | err x
 //!   cond <0|1> eo=<edge ids>     => <members;..>|<s:t:w,..>   eo = abstract edge id per concrete index
 //!   space new|default|foreign <m> => -                 the DfsSpace the following `reuse` lines go through:
 //!                                                      DfsSpace::new(g) / DfsSpace::default() / one made for and
 //!                                                      used on ANOTHER graph with m nodes (dirty, other length)
+//!   law <name> …                 => ok | VIOLATED <why>   a law judged in the harness against the
+//!                                                      implementation itself (API items without
+//!                                                      state-dependent semantics); the driver expects ok
+//!
+//! The `graph` line of an adaptor case is built from what the algorithms themselves consume
+//! (`neighbors`, `neighbors_directed(_, Incoming)`, `node_identifiers`, `to_index`, `node_bound` of the
+//! ADAPTOR) next to the abstract graph the adaptor is documented to present; it carries
+//! `ad=<chain> bd= bnodes= bedges=` (the adaptor chain and the abstract graph of the base) so that the
+//! driver can recompute the abstract graph of the view itself (`adaptOkB`).
 use crate::common::*;
 use crate::graphs::*;
+use crate::iterlaws::{iter_laws, law_verdict};
 use crate::rng::Rng;
 use petgraph::algo::{
     condensation, connected_components, has_path_connecting, is_bipartite_undirected, is_cyclic_directed,
     is_cyclic_undirected, kosaraju_scc, tarjan_scc, toposort, DfsSpace, TarjanScc,
 };
+use petgraph::graph::Frozen;
 use petgraph::visit::{
-    EdgeRef, IntoEdgeReferences, IntoNeighbors, IntoNeighborsDirected, IntoNodeIdentifiers, NodeCompactIndexable,
-    NodeIndexable, Reversed, Visitable,
+    EdgeFiltered, EdgeRef, IntoEdgeReferences, IntoNeighbors, IntoNeighborsDirected, IntoNodeIdentifiers,
+    NodeCompactIndexable, NodeFiltered, NodeIndexable, Reversed, UndirectedAdaptor, VisitMap, Visitable,
 };
-use petgraph::{Directed, Undirected};
+use petgraph::{Directed, Direction, Undirected};
 use std::fmt::Debug;
+
+/// edge types whose iterators can be cloned (`Directed`, `Undirected`)
+pub trait Et: petgraph::EdgeType + Clone {}
+impl<T: petgraph::EdgeType + Clone> Et for T {}
+
+// ------------------------------------------------------------------------------------------------
+// the abstract graph of a view (base graph or adaptor over it): explicit node ids and edge ids
+
+#[derive(Clone, Debug)]
+pub struct XG {
+    pub directed: bool,
+    /// the abstract node ids present, ascending
+    pub ids: Vec<usize>,
+    /// (edge id, src, tgt, weight)
+    pub edges: Vec<(usize, usize, usize, i64)>,
+}
+
+impl XG {
+    pub fn of(ag: &AG) -> XG {
+        XG { directed: ag.directed, ids: (0..ag.n).collect(), edges: ag.edges.iter().enumerate().map(|(k, &(a, b, w))| (k, a, b, w)).collect() }
+    }
+    /// `Reversed`: every edge turned around
+    fn rev(&self) -> XG {
+        XG { directed: self.directed, ids: self.ids.clone(), edges: self.edges.iter().map(|&(k, a, b, w)| (k, b, a, w)).collect() }
+    }
+    /// `EdgeFiltered` with the filter `weight >= thr`
+    fn ef(&self, thr: i64) -> XG {
+        XG { directed: self.directed, ids: self.ids.clone(), edges: self.edges.iter().filter(|e| e.3 >= thr).cloned().collect() }
+    }
+    /// `NodeFiltered`: the induced subgraph
+    fn nf(&self, keep: &dyn Fn(usize) -> bool) -> XG {
+        XG {
+            directed: self.directed,
+            ids: self.ids.iter().cloned().filter(|&i| keep(i)).collect(),
+            edges: self.edges.iter().filter(|e| keep(e.1) && keep(e.2)).cloned().collect(),
+        }
+    }
+    /// `UndirectedAdaptor`, as its `neighbors` present it: incoming chained with outgoing, so over a
+    /// directed graph every self-loop is listed twice, over an undirected graph every edge is
+    fn und(&self) -> XG {
+        let mut next = self.edges.iter().map(|e| e.0).max().map_or(0, |m| m + 1);
+        let mut edges = self.edges.clone();
+        for &(_, a, b, w) in &self.edges {
+            if !self.directed || a == b {
+                edges.push((next, a, b, w));
+                next += 1;
+            }
+        }
+        XG { directed: false, ids: self.ids.clone(), edges }
+    }
+    /// direction ignored, every edge once (`edge_references` of an `UndirectedAdaptor`)
+    fn unde(&self) -> XG {
+        XG { directed: false, ids: self.ids.clone(), edges: self.edges.clone() }
+    }
+    fn edges_str(&self) -> String {
+        if self.edges.is_empty() {
+            return "-".into();
+        }
+        self.edges.iter().map(|&(k, a, b, w)| format!("{}:{}:{}:{}", k, a, b, w)).collect::<Vec<_>>().join(";")
+    }
+}
+
+/// what is appended to the `graph` line: the encoding of the base, the adaptor chain and the base's
+/// abstract graph
+#[derive(Clone)]
+struct Meta {
+    enc: String,
+    ad: Vec<String>,
+    base: XG,
+}
+
+impl Meta {
+    fn plain(enc: &str, base: &XG) -> Meta {
+        Meta { enc: enc.to_string(), ad: Vec::new(), base: base.clone() }
+    }
+    fn with(&self, a: String) -> Meta {
+        let mut m = self.clone();
+        m.ad.push(a);
+        m
+    }
+    fn text(&self) -> String {
+        if self.ad.is_empty() {
+            format!(" enc={}", self.enc)
+        } else {
+            format!(" enc={} ad={} bd={} bnodes={} bedges={}", self.enc, self.ad.join("+"), self.base.directed as u8, list(self.base.ids.iter()), self.base.edges_str())
+        }
+    }
+}
+
+fn lookup_eid(xg: &XG, a: usize, b: usize, incoming: bool, used: &mut Vec<usize>) -> usize {
+    for &(k, x, y, _) in &xg.edges {
+        if used.contains(&k) {
+            continue;
+        }
+        let fwd = if incoming { x == b && y == a } else { x == a && y == b };
+        let bwd = if incoming { x == a && y == b } else { x == b && y == a };
+        if fwd || (!xg.directed && bwd) {
+            used.push(k);
+            return k;
+        }
+    }
+    0
+}
+
+fn row_str(rows: &[(usize, Vec<(usize, usize)>)]) -> String {
+    if rows.is_empty() {
+        return "-".into();
+    }
+    rows.iter()
+        .map(|(a, r)| format!("{}:{}", a, if r.is_empty() { "-".to_string() } else { r.iter().map(|(b, k)| format!("{}/{}", b, k)).collect::<Vec<_>>().join(",") }))
+        .collect::<Vec<_>>()
+        .join(";")
+}
+
+fn head_str<G>(xg: &XG, g: G, abs: &dyn Fn(G::NodeId) -> usize) -> String
+where
+    G: IntoNodeIdentifiers + NodeIndexable + Copy,
+    G::NodeId: Copy,
+{
+    let nodes: Vec<G::NodeId> = g.node_identifiers().collect();
+    format!(
+        "graph d={} nb={} nodes={} ix={} edges={}",
+        xg.directed as u8,
+        g.node_bound(),
+        list(nodes.iter().map(|&n| abs(n))),
+        list(nodes.iter().map(|&n| format!("{}:{}", abs(n), g.to_index(n)))),
+        xg.edges_str()
+    )
+}
+
+/// the `graph` line of a view with directed neighbour iteration, from exactly what the algorithms
+/// consume: `neighbors(n)` forwards, `neighbors_directed(n, Incoming)` (= `Reversed(g).neighbors(n)`)
+/// backwards
+fn nview_full<G>(xg: &XG, g: G, abs: &dyn Fn(G::NodeId) -> usize) -> String
+where
+    G: IntoNeighborsDirected + IntoNodeIdentifiers + NodeIndexable + Copy,
+    G::NodeId: Copy,
+{
+    let nodes: Vec<G::NodeId> = g.node_identifiers().collect();
+    let mut out = Vec::new();
+    let mut inn = Vec::new();
+    for &n in &nodes {
+        let a = abs(n);
+        let mut used = Vec::new();
+        out.push((a, g.neighbors(n).map(|m| { let b = abs(m); (b, lookup_eid(xg, a, b, false, &mut used)) }).collect::<Vec<_>>()));
+        let mut used = Vec::new();
+        inn.push((a, g.neighbors_directed(n, Direction::Incoming).map(|m| { let b = abs(m); (b, lookup_eid(xg, a, b, true, &mut used)) }).collect::<Vec<_>>()));
+    }
+    format!("{} out={} in={}", head_str(xg, g, abs), row_str(&out), row_str(&inn))
+}
+
+/// … of a view that only offers `neighbors` (`in=` is derived by the driver from the abstract graph)
+fn nview_out<G>(xg: &XG, g: G, abs: &dyn Fn(G::NodeId) -> usize) -> String
+where
+    G: IntoNeighbors + IntoNodeIdentifiers + NodeIndexable + Copy,
+    G::NodeId: Copy,
+{
+    let nodes: Vec<G::NodeId> = g.node_identifiers().collect();
+    let mut out = Vec::new();
+    for &n in &nodes {
+        let a = abs(n);
+        let mut used = Vec::new();
+        out.push((a, g.neighbors(n).map(|m| { let b = abs(m); (b, lookup_eid(xg, a, b, false, &mut used)) }).collect::<Vec<_>>()));
+    }
+    format!("{} out={} in=- hasin=0", head_str(xg, g, abs), row_str(&out))
+}
+
+/// … for the functions that read `edge_references()` only: node ids, `to_index`, `node_bound` from the
+/// view, neighbour rows derived from the abstract graph in edge order
+fn eview<G>(xg: &XG, g: G, abs: &dyn Fn(G::NodeId) -> usize) -> String
+where
+    G: IntoNodeIdentifiers + NodeIndexable + Copy,
+    G::NodeId: Copy,
+{
+    let mut out: Vec<(usize, Vec<(usize, usize)>)> = xg.ids.iter().map(|&i| (i, Vec::new())).collect();
+    let mut inn = out.clone();
+    let pos = |i: usize| xg.ids.iter().position(|&x| x == i);
+    for &(k, a, b, _) in &xg.edges {
+        if let (Some(pa), Some(pb)) = (pos(a), pos(b)) {
+            out[pa].1.push((b, k));
+            inn[pb].1.push((a, k));
+            if !xg.directed && a != b {
+                out[pb].1.push((a, k));
+                inn[pa].1.push((b, k));
+            }
+        }
+    }
+    format!("{} out={} in={}", head_str(xg, g, abs), row_str(&out), row_str(&inn))
+}
+
+// ------------------------------------------------------------------------------------------------
 
 fn sccs_str<N: Copy>(s: &[Vec<N>], abs: &dyn Fn(N) -> usize) -> String {
     if s.is_empty() {
@@ -43,8 +251,19 @@ fn p(r: Option<String>) -> String {
     r.unwrap_or_else(|| "panic".into())
 }
 
+fn law(ctx: &mut Ctx, name: &str, r: Option<Option<String>>) {
+    let v = match r {
+        Some(x) => law_verdict(x),
+        None => "VIOLATED panic".to_string(),
+    };
+    ctx.line(&format!("law {}", name), &v);
+}
+
+/// the largest graphs get the cheap requests only (no all-pairs matrix, no 2^n colouring oracle)
+const SMALL: usize = 12;
+
 /// everything that needs only IntoNeighbors + IntoNodeIdentifiers + Visitable + NodeIndexable
-fn run_basic<G>(ctx: &mut Ctx, rng: &mut Rng, g: G, n: usize, directed: bool, abs: &dyn Fn(G::NodeId) -> usize, conc: &dyn Fn(usize) -> G::NodeId)
+fn run_basic<G>(ctx: &mut Ctx, rng: &mut Rng, g: G, ids: &[usize], undirected: bool, abs: &dyn Fn(G::NodeId) -> usize, conc: &dyn Fn(usize) -> G::NodeId)
 where
     G: IntoNeighbors + IntoNodeIdentifiers + Visitable + NodeIndexable + Copy,
     G::NodeId: PartialEq + Copy + Debug,
@@ -65,17 +284,20 @@ where
         parts.join("|")
     });
     ctx.line("tarjanrun", &p(r));
-    // has_path_connecting, fresh workspace per call
-    let r = catch(|| {
-        let rows: Vec<String> = (0..n)
-            .map(|a| format!("{}:{}", a, list((0..n).filter(|&b| has_path_connecting(g, conc(a), conc(b), None)))))
-            .collect();
-        if rows.is_empty() { "-".to_string() } else { rows.join(";") }
-    });
-    ctx.line("haspath fresh", &p(r));
+    if ids.len() <= SMALL {
+        // has_path_connecting, fresh workspace per call
+        let r = catch(|| {
+            let rows: Vec<String> = ids
+                .iter()
+                .map(|&a| format!("{}:{}", a, list(ids.iter().filter(|&&b| has_path_connecting(g, conc(a), conc(b), None)))))
+                .collect();
+            if rows.is_empty() { "-".to_string() } else { rows.join(";") }
+        });
+        ctx.line("haspath fresh", &p(r));
+    }
     ctx.line("cycd", &p(catch(|| is_cyclic_directed(g).to_string())));
-    if !directed && n > 0 {
-        let mut starts: Vec<usize> = (0..n).collect();
+    if undirected && !ids.is_empty() && ids.len() <= SMALL {
+        let mut starts: Vec<usize> = ids.to_vec();
         rng.shuffle(&mut starts);
         for &s in starts.iter().take(3) {
             ctx.line(&format!("bip {}", s), &p(catch(|| is_bipartite_undirected(g, conc(s)).to_string())));
@@ -83,41 +305,133 @@ where
     }
 }
 
-fn haspath_reuse<G>(g: G, n: usize, rng: &mut Rng, conc: &dyn Fn(usize) -> G::NodeId, space: &mut DfsSpace<G::NodeId, G::Map>) -> String
+/// laws of the items of C09's API that have no state of their own: `TarjanScc::default`, `Debug`, a
+/// `TarjanScc` that was used on ANOTHER graph before (`prime`), and the iterators the algorithms consume
+fn laws_basic<G>(ctx: &mut Ctx, g: G, ids: &[usize], conc: &dyn Fn(usize) -> G::NodeId, prime: &dyn Fn(&mut TarjanScc<G::NodeId>) -> usize)
+where
+    G: IntoNeighbors + IntoNodeIdentifiers + Visitable + NodeIndexable + Copy,
+    G::NodeId: PartialEq + Copy + Debug,
+    G::Neighbors: Clone,
+    G::NodeIdentifiers: Clone,
+{
+    let r = catch(|| {
+        let fresh = tarjan_scc(g);
+        let mut t: TarjanScc<G::NodeId> = Default::default();
+        let mut c: Vec<Vec<G::NodeId>> = Vec::new();
+        t.run(g, |s| c.push(s.to_vec()));
+        if c != fresh {
+            return Some(format!("TarjanScc::default().run gives {:?}, tarjan_scc gives {:?}", c, fresh));
+        }
+        if format!("{:?}", t).is_empty() {
+            return Some("empty Debug output".to_string());
+        }
+        None
+    });
+    law(ctx, "tarjan-default", r);
+    let mut m = 0;
+    let r = catch(|| {
+        let fresh = tarjan_scc(g);
+        let mut t = TarjanScc::new();
+        m = prime(&mut t);
+        let mut c: Vec<Vec<G::NodeId>> = Vec::new();
+        t.run(g, |s| c.push(s.to_vec()));
+        if c != fresh {
+            return Some(format!("a TarjanScc used on a graph with {} nodes before gives {:?}, a new one gives {:?}", m, c, fresh));
+        }
+        // node_component_index: equal exactly for members of one component
+        let nodes: Vec<G::NodeId> = g.node_identifiers().collect();
+        let comp: Vec<Option<usize>> = nodes.iter().map(|x| c.iter().position(|k| k.contains(x))).collect();
+        let idx: Vec<usize> = nodes.iter().map(|&x| t.node_component_index(g, x)).collect();
+        for i in 0..nodes.len() {
+            for j in 0..nodes.len() {
+                if (idx[i] == idx[j]) != (comp[i] == comp[j]) {
+                    return Some(format!("node_component_index of {:?} and {:?} after a run on another graph (m = {}) does not agree with the components {:?}", nodes[i], nodes[j], m, c));
+                }
+            }
+        }
+        None
+    });
+    law(ctx, &format!("tarjan-foreign {}", m), r);
+    // the iterators the algorithms walk: all ways of reading them describe one sequence
+    let r = catch(|| {
+        if let Some(e) = iter_laws(g.node_identifiers()) {
+            return Some(format!("node_identifiers: {}", e));
+        }
+        for &a in ids.iter().take(4) {
+            if let Some(e) = iter_laws(g.neighbors(conc(a))) {
+                return Some(format!("neighbors({}): {}", a, e));
+            }
+            let mut it = g.neighbors(conc(a));
+            if it.next().is_some() {
+                if let Some(e) = iter_laws(it) {
+                    return Some(format!("neighbors({}) after one item: {}", a, e));
+                }
+            }
+        }
+        None
+    });
+    law(ctx, "iter-neighbors", r);
+}
+
+fn haspath_reuse<G>(g: G, ids: &[usize], rng: &mut Rng, conc: &dyn Fn(usize) -> G::NodeId, space: &mut DfsSpace<G::NodeId, G::Map>) -> String
 where
     G: IntoNeighbors + Visitable + Copy,
     G::NodeId: PartialEq + Copy,
 {
     // all pairs in a random order through ONE workspace
+    let n = ids.len();
     let mut pairs: Vec<(usize, usize)> = (0..n).flat_map(|a| (0..n).map(move |b| (a, b))).collect();
     rng.shuffle(&mut pairs);
     let mut rows: Vec<Vec<usize>> = vec![Vec::new(); n];
     for (a, b) in pairs {
-        if has_path_connecting(g, conc(a), conc(b), Some(space)) {
-            rows[a].push(b);
+        if has_path_connecting(g, conc(ids[a]), conc(ids[b]), Some(space)) {
+            rows[a].push(ids[b]);
         }
     }
     if n == 0 {
         return "-".into();
     }
     rows.iter_mut().for_each(|r| r.sort());
-    rows.iter().enumerate().map(|(a, r)| format!("{}:{}", a, list(r.iter()))).collect::<Vec<_>>().join(";")
+    rows.iter().enumerate().map(|(a, r)| format!("{}:{}", ids[a], list(r.iter()))).collect::<Vec<_>>().join(";")
 }
 
 /// types without IntoNeighborsDirected: only has_path can reuse a workspace
-fn run_reuse_basic<G>(ctx: &mut Ctx, rng: &mut Rng, g: G, n: usize, conc: &dyn Fn(usize) -> G::NodeId)
+fn run_reuse_basic<G>(ctx: &mut Ctx, rng: &mut Rng, g: G, ids: &[usize], conc: &dyn Fn(usize) -> G::NodeId)
+where
+    G: IntoNeighbors + Visitable + Copy,
+    G::NodeId: PartialEq + Copy,
+    G::Map: Default,
+{
+    let mut rng2 = rng.clone();
+    rng.next();
+    let dflt = rng.chance(40);
+    ctx.line(if dflt { "space default 0" } else { "space new 0" }, "-");
+    let mut space = if dflt { DfsSpace::default() } else { DfsSpace::new(g) };
+    if ids.len() <= SMALL {
+        let r = catch(|| haspath_reuse(g, ids, &mut rng2, conc, &mut space));
+        ctx.line("haspath reuse", &p(r));
+    }
+    haspath1(ctx, rng, g, ids, conc, &mut space, 2);
+}
+
+/// single queries through the workspace, each next to the answer of a fresh one
+fn haspath1<G>(ctx: &mut Ctx, rng: &mut Rng, g: G, ids: &[usize], conc: &dyn Fn(usize) -> G::NodeId, space: &mut DfsSpace<G::NodeId, G::Map>, k: usize)
 where
     G: IntoNeighbors + Visitable + Copy,
     G::NodeId: PartialEq + Copy,
 {
-    let mut rng2 = rng.clone();
-    rng.next();
-    ctx.line("space new 0", "-");
-    let r = catch(|| {
-        let mut space = DfsSpace::new(g);
-        haspath_reuse(g, n, &mut rng2, conc, &mut space)
-    });
-    ctx.line("haspath reuse", &p(r));
+    if ids.is_empty() {
+        return;
+    }
+    for _ in 0..k {
+        let (a, b) = (*rng.pick(ids), *rng.pick(ids));
+        let r = catch(|| has_path_connecting(g, conc(a), conc(b), Some(space)));
+        let fresh = catch(|| has_path_connecting(g, conc(a), conc(b), None));
+        ctx.line(&format!("haspath1 {} {}", a, b), &match (r, fresh) {
+            (Some(x), Some(y)) => format!("{} {}", x, y),
+            _ => "panic".into(),
+        });
+    }
 }
 
 fn topo_str<G>(r: Result<Vec<G::NodeId>, petgraph::algo::Cycle<G::NodeId>>, abs: &dyn Fn(G::NodeId) -> usize) -> String
@@ -131,39 +445,147 @@ where
     }
 }
 
-/// kosaraju_scc, toposort; one DfsSpace (possibly dirty, possibly made for another graph of the same
-/// type) shared by toposort and has_path_connecting calls
-fn run_directed<G>(ctx: &mut Ctx, rng: &mut Rng, g: G, n: usize, abs: &dyn Fn(G::NodeId) -> usize, conc: &dyn Fn(usize) -> G::NodeId, space: Option<(DfsSpace<G::NodeId, G::Map>, usize)>)
+/// announce and make the workspace of the `reuse` lines
+fn make_space<G>(ctx: &mut Ctx, rng: &mut Rng, g: G, foreign: Option<(DfsSpace<G::NodeId, G::Map>, usize)>) -> DfsSpace<G::NodeId, G::Map>
 where
-    G: IntoNeighborsDirected + IntoNodeIdentifiers + Visitable + Copy,
+    G: IntoNeighbors + Visitable + Copy,
     G::NodeId: PartialEq + Copy,
     G::Map: Default,
 {
+    match foreign {
+        Some((s, m)) => {
+            ctx.line(&format!("space foreign {}", m), "-");
+            s
+        }
+        None => {
+            if rng.chance(50) {
+                ctx.line("space new 0", "-");
+                DfsSpace::new(g)
+            } else {
+                ctx.line("space default 0", "-");
+                DfsSpace::default()
+            }
+        }
+    }
+}
+
+/// kosaraju_scc, toposort; one DfsSpace (possibly dirty, possibly made for another graph of the same
+/// type) shared by toposort and has_path_connecting calls
+fn run_directed<G>(ctx: &mut Ctx, rng: &mut Rng, g: G, ids: &[usize], abs: &dyn Fn(G::NodeId) -> usize, conc: &dyn Fn(usize) -> G::NodeId, space: &mut DfsSpace<G::NodeId, G::Map>)
+where
+    G: IntoNeighborsDirected + IntoNodeIdentifiers + Visitable + Copy,
+    G::NodeId: PartialEq + Copy,
+{
     ctx.line("kosaraju", &p(catch(|| sccs_str(&kosaraju_scc(g), abs))));
     ctx.line("toposort fresh", &p(catch(|| topo_str::<G>(toposort(g, None), abs))));
-    let mut space = match space {
-        Some((s, m)) => { ctx.line(&format!("space foreign {}", m), "-"); s }
-        None => if rng.chance(50) { ctx.line("space new 0", "-"); DfsSpace::new(g) } else { ctx.line("space default 0", "-"); DfsSpace::default() },
-    };
     // a panic inside one call must not hide the others: the workspace lives outside the catch
-    let r = catch(|| topo_str::<G>(toposort(g, Some(&mut space)), abs));
+    let r = catch(|| topo_str::<G>(toposort(g, Some(space)), abs));
     ctx.line("toposort reuse", &p(r));
-    let mut rng2 = rng.clone();
-    rng.next();
-    let r = catch(|| haspath_reuse(g, n, &mut rng2, conc, &mut space));
-    ctx.line("haspath reuse", &p(r));
-    let r = catch(|| topo_str::<G>(toposort(g, Some(&mut space)), abs));
-    ctx.line("toposort reuse", &p(r));
-    if n > 0 {
-        // one more query after a toposort that may have returned early with a non-empty stack
-        let (a, b) = (rng.below(n), rng.below(n));
-        let r = catch(|| has_path_connecting(g, conc(a), conc(b), Some(&mut space)));
-        let fresh = catch(|| has_path_connecting(g, conc(a), conc(b), None));
-        ctx.line(&format!("haspath1 {} {}", a, b), &match (r, fresh) {
-            (Some(x), Some(y)) => format!("{} {}", x, y),
-            _ => "panic".into(),
-        });
+    if ids.len() <= SMALL {
+        let mut rng2 = rng.clone();
+        rng.next();
+        let r = catch(|| haspath_reuse(g, ids, &mut rng2, conc, space));
+        ctx.line("haspath reuse", &p(r));
+    } else {
+        haspath1(ctx, rng, g, ids, conc, space, 3);
     }
+    let r = catch(|| topo_str::<G>(toposort(g, Some(space)), abs));
+    ctx.line("toposort reuse", &p(r));
+    // one more query after a toposort that may have returned early with a non-empty stack
+    haspath1(ctx, rng, g, ids, conc, space, 1);
+}
+
+/// laws of the directed API: the deprecated alias `scc`, `Clone` / `clone_from` / `Debug` of a used
+/// `DfsSpace`, `Clone` / `PartialEq` / `Debug` / `node_id` of `Cycle`
+fn laws_directed<G>(ctx: &mut Ctx, rng: &mut Rng, g: G, ids: &[usize], conc: &dyn Fn(usize) -> G::NodeId, space: &mut DfsSpace<G::NodeId, G::Map>)
+where
+    G: IntoNeighborsDirected + IntoNodeIdentifiers + Visitable + Copy,
+    G::NodeId: PartialEq + Copy + Debug,
+    G::Map: Default + Clone + Debug,
+    G::NeighborsDirected: Clone,
+{
+    #[allow(deprecated)]
+    let r = catch(|| {
+        let (a, b) = (petgraph::algo::scc(g), kosaraju_scc(g));
+        if a != b { Some(format!("scc gives {:?}, kosaraju_scc gives {:?}", a, b)) } else { None }
+    });
+    law(ctx, "scc-alias", r);
+    let pairs: Vec<(usize, usize)> = if ids.is_empty() { Vec::new() } else { (0..3).map(|_| (*rng.pick(ids), *rng.pick(ids))).collect() };
+    let r = catch(|| {
+        let fresh_topo = toposort(g, None);
+        // the workspace as the calls before left it, copied in the two ways `Clone` offers
+        let mut c1 = space.clone();
+        let mut c2: DfsSpace<G::NodeId, G::Map> = DfsSpace::default();
+        if let Some(&(a, b)) = pairs.first() {
+            // an arbitrary prior content of the target of clone_from
+            let _ = has_path_connecting(g, conc(a), conc(b), Some(&mut c2));
+        }
+        c2.clone_from(space);
+        if format!("{:?}", space).is_empty() || format!("{:?}", c1).is_empty() || format!("{:#?}", c2).is_empty() {
+            return Some("empty Debug output of a DfsSpace".to_string());
+        }
+        for (name, c) in [("clone()", &mut c1), ("clone_from()", &mut c2)] {
+            for &(a, b) in &pairs {
+                let (x, y) = (has_path_connecting(g, conc(a), conc(b), Some(c)), has_path_connecting(g, conc(a), conc(b), None));
+                if x != y {
+                    return Some(format!("has_path_connecting({}, {}) through a DfsSpace made by {} = {}, fresh = {}", a, b, name, x, y));
+                }
+            }
+            let t = toposort(g, Some(c));
+            if t != fresh_topo {
+                return Some(format!("toposort through a DfsSpace made by {} = {:?}, fresh = {:?}", name, t, fresh_topo));
+            }
+        }
+        None
+    });
+    law(ctx, "dfsspace-clone", r);
+    let r = catch(|| {
+        match toposort(g, None) {
+            Ok(_) => None,
+            Err(c) => {
+                let d = c.clone();
+                if !(c == d) || c != d {
+                    return Some("a Cycle is not equal to its clone".to_string());
+                }
+                if c.node_id() != d.node_id() || c.node_id() != c.node_id() {
+                    return Some("node_id of a Cycle and of its clone differ".to_string());
+                }
+                if format!("{:?}", c).is_empty() || format!("{:?}", c) != format!("{:?}", d) {
+                    return Some("Debug of a Cycle and of its clone differ".to_string());
+                }
+                // the same call again names the same node (the function is deterministic)
+                match toposort(g, None) {
+                    Err(e) if e == c => None,
+                    other => Some(format!("a second toposort gives {:?}, the first gave {:?}", other, c)),
+                }
+            }
+        }
+    });
+    law(ctx, "cycle-eq", r);
+    // the backwards iteration the algorithms use, read in every way an iterator can be read
+    let r = catch(|| {
+        for &a in ids.iter().take(4) {
+            for dir in [Direction::Incoming, Direction::Outgoing] {
+                if let Some(e) = iter_laws(g.neighbors_directed(conc(a), dir)) {
+                    return Some(format!("neighbors_directed({}, {:?}): {}", a, dir, e));
+                }
+            }
+            // `neighbors` is the outgoing half
+            let mut x: Vec<G::NodeId> = g.neighbors(conc(a)).collect();
+            let mut y: Vec<G::NodeId> = g.neighbors_directed(conc(a), Direction::Outgoing).collect();
+            if x.len() != y.len() {
+                return Some(format!("neighbors({}) yields {} nodes, neighbors_directed(_, Outgoing) yields {}", a, x.len(), y.len()));
+            }
+            while let Some(v) = x.pop() {
+                match y.iter().position(|&w| w == v) {
+                    Some(i) => { y.swap_remove(i); }
+                    None => return Some(format!("neighbors({}) yields {:?}, neighbors_directed(_, Outgoing) does not", a, v)),
+                }
+            }
+        }
+        None
+    });
+    law(ctx, "iter-neighbors-directed", r);
 }
 
 fn er_str<G>(g: G, abs: &dyn Fn(G::NodeId) -> usize) -> String
@@ -189,17 +611,291 @@ where
     ctx.line(&format!("cc er={}", er), &p(catch(|| connected_components(g).to_string())));
 }
 
-fn run_cond<Ty: petgraph::EdgeType, Ix: petgraph::graph::IndexType>(ctx: &mut Ctx, e: &EncGraph<Ty, Ix>) {
+fn run_cond<Ty: Et, Ix: petgraph::graph::IndexType>(ctx: &mut Ctx, g0: &petgraph::Graph<usize, i64, Ty, Ix>, eid: &[usize]) {
     for acyc in [false, true] {
-        let g = e.g.clone();
+        let g = g0.clone();
         let r = catch(|| {
             let c = condensation(g, acyc);
             let nodes: Vec<String> = c.node_indices().map(|i| list(c[i].iter())).collect();
             let edges = list(c.edge_references().map(|er| format!("{}:{}:{}", er.source().index(), er.target().index(), er.weight())));
             format!("{}|{}", if nodes.is_empty() { "-".to_string() } else { nodes.join(";") }, edges)
         });
-        ctx.line(&format!("cond {} eo={}", if acyc { 1 } else { 0 }, list(e.eid.iter())), &p(r));
+        ctx.line(&format!("cond {} eo={}", if acyc { 1 } else { 0 }, list(eid.iter())), &p(r));
     }
+}
+
+/// `condensation` is generic in the weights: with `()` node weights and `f32` edge weights (NaN, ±inf and
+/// -0.0 among them) the condensed graph has the same shape as with the weights of the case; and a clone
+/// taken before the call is not affected by it
+fn laws_cond<Ty: Et, Ix: petgraph::graph::IndexType>(ctx: &mut Ctx, g0: &petgraph::Graph<usize, i64, Ty, Ix>) {
+    let r = catch(|| {
+        let odd = [f32::NAN, f32::INFINITY, f32::NEG_INFINITY, -0.0f32, 0.0];
+        let h = g0.map(|_, _| (), |e, &w| if w == 0 { odd[e.index() % odd.len()] } else { w as f32 });
+        for acyc in [false, true] {
+            let keep = g0.clone();
+            let a = condensation(g0.clone(), acyc);
+            let b = condensation(h.clone(), acyc);
+            let sizes_a: Vec<usize> = a.node_indices().map(|i| a[i].len()).collect();
+            let sizes_b: Vec<usize> = b.node_indices().map(|i| b[i].len()).collect();
+            if sizes_a != sizes_b {
+                return Some(format!("make_acyclic={}: component sizes {:?} with the case's weights, {:?} with () / f32 weights", acyc, sizes_a, sizes_b));
+            }
+            let ends_a: Vec<(usize, usize)> = a.edge_references().map(|e| (e.source().index(), e.target().index())).collect();
+            let ends_b: Vec<(usize, usize)> = b.edge_references().map(|e| (e.source().index(), e.target().index())).collect();
+            if ends_a != ends_b {
+                return Some(format!("make_acyclic={}: condensed edges {:?} with the case's weights, {:?} with () / f32 weights", acyc, ends_a, ends_b));
+            }
+            if kosaraju_scc(&keep) != kosaraju_scc(g0) || keep.edge_count() != g0.edge_count() {
+                return Some("a clone of the graph differs from the graph after condensation consumed another clone".to_string());
+            }
+        }
+        None
+    });
+    law(ctx, "cond-generic", r);
+}
+
+/// queries with an id that is not a node (documented: such a node has no neighbours, so it reaches
+/// itself and nothing else, and nothing reaches it)
+fn run_stale<G>(ctx: &mut Ctx, rng: &mut Rng, g: G, ids: &[usize], conc: &dyn Fn(usize) -> G::NodeId, stale: &[(usize, G::NodeId)])
+where
+    G: IntoNeighbors + Visitable + Copy,
+    G::NodeId: PartialEq + Copy,
+{
+    if stale.is_empty() {
+        return;
+    }
+    let (sa, sn) = *rng.pick(stale);
+    let (ta, tn) = *rng.pick(stale);
+    let mut qs: Vec<(usize, G::NodeId, usize, G::NodeId)> = vec![(sa, sn, sa, sn), (sa, sn, ta, tn)];
+    if !ids.is_empty() {
+        let x = *rng.pick(ids);
+        qs.push((sa, sn, x, conc(x)));
+        qs.push((x, conc(x), sa, sn));
+    }
+    for (a, an, b, bn) in qs {
+        ctx.line(&format!("stalepath {} {}", a, b), &p(catch(|| has_path_connecting(g, an, bn, None).to_string())));
+    }
+}
+
+// ------------------------------------------------------------------------------------------------
+// suites: one view (base graph or adaptor), everything its trait bounds admit
+
+fn suite_full<G>(ctx: &mut Ctx, rng: &mut Rng, g: G, xg: &XG, abs: &dyn Fn(G::NodeId) -> usize, conc: &dyn Fn(usize) -> G::NodeId, meta: &Meta, prime: &dyn Fn(&mut TarjanScc<G::NodeId>) -> usize)
+where
+    G: IntoNeighborsDirected + IntoNodeIdentifiers + Visitable + NodeIndexable + Copy,
+    G::NodeId: PartialEq + Copy + Debug,
+    G::Map: Default + Clone + Debug,
+    G::Neighbors: Clone,
+    G::NeighborsDirected: Clone,
+    G::NodeIdentifiers: Clone,
+{
+    ctx.line(&format!("{}{}", nview_full(xg, g, abs), meta.text()), "ok");
+    run_basic(ctx, rng, g, &xg.ids, !xg.directed, abs, conc);
+    laws_basic(ctx, g, &xg.ids, conc, prime);
+    let mut space = make_space(ctx, rng, g, None);
+    run_directed(ctx, rng, g, &xg.ids, abs, conc, &mut space);
+    laws_directed(ctx, rng, g, &xg.ids, conc, &mut space);
+}
+
+fn suite_out<G>(ctx: &mut Ctx, rng: &mut Rng, g: G, xg: &XG, abs: &dyn Fn(G::NodeId) -> usize, conc: &dyn Fn(usize) -> G::NodeId, meta: &Meta, prime: &dyn Fn(&mut TarjanScc<G::NodeId>) -> usize)
+where
+    G: IntoNeighbors + IntoNodeIdentifiers + Visitable + NodeIndexable + Copy,
+    G::NodeId: PartialEq + Copy + Debug,
+    G::Map: Default,
+    G::Neighbors: Clone,
+    G::NodeIdentifiers: Clone,
+{
+    ctx.line(&format!("{}{}", nview_out(xg, g, abs), meta.text()), "ok");
+    run_basic(ctx, rng, g, &xg.ids, !xg.directed, abs, conc);
+    laws_basic(ctx, g, &xg.ids, conc, prime);
+    run_reuse_basic(ctx, rng, g, &xg.ids, conc);
+}
+
+macro_rules! when {
+    (yes $($t:tt)*) => { $($t)* };
+    (no $($t:tt)*) => {};
+}
+
+fn pick_thr(rng: &mut Rng, xg: &XG) -> i64 {
+    let (lo, hi) = xg.edges.iter().fold((0i64, 0i64), |(l, h), e| (l.min(e.3), h.max(e.3)));
+    // below every weight (keeps all), above every weight (keeps none), or in between
+    rng.range(lo - 1, hi + 1)
+}
+
+fn pick_keep(rng: &mut Rng, xg: &XG) -> Vec<usize> {
+    let pct = *rng.pick(&[0u32, 50, 75, 75, 90, 100]);
+    xg.ids.iter().cloned().filter(|_| rng.chance(pct)).collect()
+}
+
+fn dotted(v: &[usize]) -> String {
+    if v.is_empty() { "-".to_string() } else { v.iter().map(|x| x.to_string()).collect::<Vec<_>>().join(".") }
+}
+
+/// every adaptor over a view `$g` with directed neighbour iteration.  `$depth`: d2 = may stack a second
+/// adaptor on top (30 %), d1 = stacks none, d0 = run the view itself.  `$cc`: yes/no — the base is
+/// NodeCompactIndexable (then so are Reversed, EdgeFiltered, UndirectedAdaptor and Frozen over it).
+macro_rules! adapt_full {
+    (d0, $ctx:expr, $rng:expr, $g:expr, $xg:expr, $abs:expr, $conc:expr, $meta:expr, $prime:expr, $cc:ident) => {{
+        let g = $g;
+        let xg: &XG = $xg;
+        suite_full($ctx, $rng, g, xg, $abs, $conc, $meta, $prime);
+        run_cycu($ctx, g, $abs);
+        when!($cc run_cc($ctx, g, $abs););
+    }};
+    (@next d2, $ctx:expr, $rng:expr, $g:expr, $xg:expr, $abs:expr, $conc:expr, $meta:expr, $prime:expr, $cc:ident) => {
+        if $rng.chance(30) {
+            adapt_full!(s1, $ctx, $rng, $g, $xg, $abs, $conc, $meta, $prime, $cc)
+        } else {
+            adapt_full!(d0, $ctx, $rng, $g, $xg, $abs, $conc, $meta, $prime, $cc)
+        }
+    };
+    (@next d1, $ctx:expr, $rng:expr, $g:expr, $xg:expr, $abs:expr, $conc:expr, $meta:expr, $prime:expr, $cc:ident) => {
+        adapt_full!(d0, $ctx, $rng, $g, $xg, $abs, $conc, $meta, $prime, $cc)
+    };
+    // the second level of a stack: Reversed, EdgeFiltered, NodeFiltered (closure), UndirectedAdaptor
+    (s1, $ctx:expr, $rng:expr, $g:expr, $xg:expr, $abs:expr, $conc:expr, $meta:expr, $prime:expr, $cc:ident) => {{
+        let g = $g;
+        let xg: &XG = $xg;
+        let meta: &Meta = $meta;
+        match $rng.below(4) {
+            0 => {
+                let a = Reversed(g);
+                let x = xg.rev();
+                let m = meta.with("rev".to_string());
+                adapt_full!(d0, $ctx, $rng, a, &x, $abs, $conc, &m, $prime, $cc)
+            }
+            1 => {
+                let thr = pick_thr($rng, xg);
+                let ef = EdgeFiltered::from_fn(g, move |e| *e.weight() >= thr);
+                let x = xg.ef(thr);
+                let m = meta.with(format!("ef:{}", thr));
+                adapt_full!(d0, $ctx, $rng, &ef, &x, $abs, $conc, &m, $prime, $cc)
+            }
+            2 => {
+                let keep = pick_keep($rng, xg);
+                let nf = NodeFiltered::from_fn(g, |n| keep.contains(&$abs(n)));
+                let x = xg.nf(&|i| keep.contains(&i));
+                let m = meta.with(format!("nf:{}", dotted(&keep)));
+                adapt_full!(d0, $ctx, $rng, &nf, &x, $abs, $conc, &m, $prime, no)
+            }
+            _ => {
+                let a = UndirectedAdaptor(g);
+                let x = xg.und();
+                let m = meta.with("und".to_string());
+                suite_out($ctx, $rng, a, &x, $abs, $conc, &m, $prime);
+                let x = xg.unde();
+                let m = meta.with("unde".to_string());
+                $ctx.line(&format!("{}{}", eview(&x, a, $abs), m.text()), "ok");
+                run_cycu($ctx, a, $abs);
+                when!($cc run_cc($ctx, a, $abs););
+            }
+        }
+    }};
+    ($depth:ident, $ctx:expr, $rng:expr, $g:expr, $xg:expr, $abs:expr, $conc:expr, $meta:expr, $prime:expr, $cc:ident) => {{
+        let g = $g;
+        let xg: &XG = $xg;
+        let meta: &Meta = $meta;
+        match $rng.below(6) {
+            0 => {
+                let a = Reversed(g);
+                let x = xg.rev();
+                let m = meta.with("rev".to_string());
+                adapt_full!(@next $depth, $ctx, $rng, a, &x, $abs, $conc, &m, $prime, $cc)
+            }
+            1 => {
+                let thr = pick_thr($rng, xg);
+                let ef = EdgeFiltered::from_fn(g, move |e| *e.weight() >= thr);
+                let x = xg.ef(thr);
+                let m = meta.with(format!("ef:{}", thr));
+                adapt_full!(@next $depth, $ctx, $rng, &ef, &x, $abs, $conc, &m, $prime, $cc)
+            }
+            2 => {
+                let keep = pick_keep($rng, xg);
+                let nf = NodeFiltered::from_fn(g, |n| keep.contains(&$abs(n)));
+                let x = xg.nf(&|i| keep.contains(&i));
+                let m = meta.with(format!("nf:{}", dotted(&keep)));
+                adapt_full!(@next $depth, $ctx, $rng, &nf, &x, $abs, $conc, &m, $prime, no)
+            }
+            3 => {
+                // the filter is a visit map of the graph (FixedBitSet / HashSet), not a closure
+                let keep = pick_keep($rng, xg);
+                let mut set = g.visit_map();
+                for &i in &keep {
+                    set.visit($conc(i));
+                }
+                let nf = NodeFiltered(g, set);
+                let x = xg.nf(&|i| keep.contains(&i));
+                let m = meta.with(format!("nf:{}", dotted(&keep)));
+                adapt_full!(@next $depth, $ctx, $rng, &nf, &x, $abs, $conc, &m, $prime, no)
+            }
+            4 => {
+                let a = UndirectedAdaptor(g);
+                let x = xg.und();
+                let m = meta.with("und".to_string());
+                suite_out($ctx, $rng, a, &x, $abs, $conc, &m, $prime);
+                // edge_references() of the adaptor is the base's: every edge once
+                let x = xg.unde();
+                let m = meta.with("unde".to_string());
+                $ctx.line(&format!("{}{}", eview(&x, a, $abs), m.text()), "ok");
+                run_cycu($ctx, a, $abs);
+                when!($cc run_cc($ctx, a, $abs););
+            }
+            _ => {
+                let mut gg = g;
+                let fz = Frozen::new(&mut gg);
+                let m = meta.with("frz".to_string());
+                adapt_full!(@next $depth, $ctx, $rng, &fz, xg, $abs, $conc, &m, $prime, $cc)
+            }
+        }
+    }};
+}
+
+/// adaptors over a base that only offers `neighbors` / `edges` (undirected MatrixGraph, Csr, List)
+macro_rules! adapt_out {
+    ($ctx:expr, $rng:expr, $g:expr, $xg:expr, $abs:expr, $conc:expr, $meta:expr, $prime:expr, $cc:ident) => {{
+        let g = $g;
+        let xg: &XG = $xg;
+        let meta: &Meta = $meta;
+        match $rng.below(4) {
+            0 => {
+                let thr = pick_thr($rng, xg);
+                let ef = EdgeFiltered::from_fn(g, move |e| *e.weight() >= thr);
+                let x = xg.ef(thr);
+                let m = meta.with(format!("ef:{}", thr));
+                suite_out($ctx, $rng, &ef, &x, $abs, $conc, &m, $prime);
+                run_cycu($ctx, &ef, $abs);
+                when!($cc run_cc($ctx, &ef, $abs););
+            }
+            1 => {
+                let keep = pick_keep($rng, xg);
+                let nf = NodeFiltered::from_fn(g, |n| keep.contains(&$abs(n)));
+                let x = xg.nf(&|i| keep.contains(&i));
+                let m = meta.with(format!("nf:{}", dotted(&keep)));
+                suite_out($ctx, $rng, &nf, &x, $abs, $conc, &m, $prime);
+                run_cycu($ctx, &nf, $abs);
+            }
+            2 => {
+                let keep = pick_keep($rng, xg);
+                let mut set = g.visit_map();
+                for &i in &keep {
+                    set.visit($conc(i));
+                }
+                let nf = NodeFiltered(g, set);
+                let x = xg.nf(&|i| keep.contains(&i));
+                let m = meta.with(format!("nf:{}", dotted(&keep)));
+                suite_out($ctx, $rng, &nf, &x, $abs, $conc, &m, $prime);
+                run_cycu($ctx, &nf, $abs);
+            }
+            _ => {
+                let mut gg = g;
+                let fz = Frozen::new(&mut gg);
+                let m = meta.with("frz".to_string());
+                suite_out($ctx, $rng, &fz, xg, $abs, $conc, &m, $prime);
+                run_cycu($ctx, &fz, $abs);
+                when!($cc run_cc($ctx, &fz, $abs););
+            }
+        }
+    }};
 }
 
 macro_rules! with_ty {
@@ -208,12 +904,91 @@ macro_rules! with_ty {
     };
 }
 
+// ------------------------------------------------------------------------------------------------
+// another graph with the same NodeId type, for a TarjanScc / DfsSpace that was used elsewhere before
+
+fn other_size(rng: &mut Rng, n: usize, cap: usize) -> usize {
+    let m = if rng.chance(50) { n + 1 + rng.below(40) } else { rng.below(n + 1) };
+    m.min(cap)
+}
+
+/// a cycle through the first half, a path through the rest, one edge between them
+fn other_edges(m: usize) -> Vec<(usize, usize)> {
+    let h = m / 2;
+    let mut e: Vec<(usize, usize)> = Vec::new();
+    for i in 0..h {
+        e.push((i, (i + 1) % h));
+    }
+    for i in h..m.saturating_sub(1) {
+        e.push((i, i + 1));
+    }
+    if h > 0 && h < m {
+        e.push((h, 0));
+    }
+    e
+}
+
+fn prime_graph<Ix: petgraph::graph::IndexType>(m: usize) -> impl Fn(&mut TarjanScc<petgraph::graph::NodeIndex<Ix>>) -> usize {
+    move |t| {
+        let mut o = petgraph::Graph::<(), (), Directed, Ix>::with_capacity(0, 0);
+        let ids: Vec<_> = (0..m).map(|_| o.add_node(())).collect();
+        for (a, b) in other_edges(m).into_iter().take(<Ix as petgraph::graph::IndexType>::max().index()) {
+            o.add_edge(ids[a], ids[b], ());
+        }
+        t.run(&o, |_| {});
+        m
+    }
+}
+
+fn prime_u32(m: usize) -> impl Fn(&mut TarjanScc<u32>) -> usize {
+    move |t| {
+        let mut o = petgraph::adj::List::<()>::new();
+        for _ in 0..m {
+            o.add_node();
+        }
+        for (a, b) in other_edges(m) {
+            o.add_edge(a as u32, b as u32, ());
+        }
+        t.run(&o, |_| {});
+        m
+    }
+}
+
+fn prime_map(m: usize) -> impl Fn(&mut TarjanScc<usize>) -> usize {
+    move |t| {
+        let mut o = petgraph::graphmap::DiGraphMap::<usize, ()>::new();
+        for i in 0..m {
+            o.add_node(1000 + i);
+        }
+        for (a, b) in other_edges(m) {
+            o.add_edge(1000 + a, 1000 + b, ());
+        }
+        t.run(&o, |_| {});
+        m
+    }
+}
+
+fn prime_matrix(m: usize) -> impl Fn(&mut TarjanScc<petgraph::matrix_graph::NodeIndex>) -> usize {
+    move |t| {
+        let mut o = petgraph::matrix_graph::DiMatrix::<(), ()>::new();
+        let ids: Vec<_> = (0..m).map(|_| o.add_node(())).collect();
+        for (a, b) in other_edges(m) {
+            if a != b || !o.has_edge(ids[a], ids[b]) {
+                o.add_edge(ids[a], ids[b], ());
+            }
+        }
+        t.run(&o, |_| {});
+        m
+    }
+}
+
 /// a workspace made for (and used on) ANOTHER graph of the same type with a different node count
-fn foreign_space<Ty: petgraph::EdgeType, Ix: petgraph::graph::IndexType>(rng: &mut Rng, n: usize) -> Option<(DfsSpace<petgraph::graph::NodeIndex<Ix>, <petgraph::Graph<usize, i64, Ty, Ix> as Visitable>::Map>, usize)> {
+fn foreign_space<Ty: Et, Ix: petgraph::graph::IndexType>(rng: &mut Rng, n: usize) -> Option<(DfsSpace<petgraph::graph::NodeIndex<Ix>, <petgraph::Graph<usize, i64, Ty, Ix> as Visitable>::Map>, usize)> {
     if rng.chance(40) {
         return None;
     }
-    let m = if rng.chance(50) { n + 1 + rng.below(40) } else { rng.below(n + 1) };
+    let cap = <Ix as petgraph::graph::IndexType>::max().index();
+    let m = other_size(rng, n, cap);
     let mut other = petgraph::Graph::<usize, i64, Ty, Ix>::with_capacity(0, 0);
     let ids: Vec<_> = (0..m).map(|i| other.add_node(i)).collect();
     for i in 1..m {
@@ -229,11 +1004,11 @@ fn foreign_space<Ty: petgraph::EdgeType, Ix: petgraph::graph::IndexType>(rng: &m
 
 /// the same for StableGraph (vacancies: the other graph has removed nodes too, so its map is longer
 /// than its node count)
-fn foreign_space_stable<Ty: petgraph::EdgeType>(rng: &mut Rng, n: usize) -> Option<(DfsSpace<petgraph::graph::NodeIndex<u32>, <petgraph::stable_graph::StableGraph<usize, i64, Ty, u32> as Visitable>::Map>, usize)> {
+fn foreign_space_stable<Ty: Et>(rng: &mut Rng, n: usize) -> Option<(DfsSpace<petgraph::graph::NodeIndex<u32>, <petgraph::stable_graph::StableGraph<usize, i64, Ty, u32> as Visitable>::Map>, usize)> {
     if rng.chance(50) {
         return None;
     }
-    let m = if rng.chance(50) { n + 1 + rng.below(40) } else { rng.below(n + 1) };
+    let m = other_size(rng, n, usize::MAX);
     let mut other = petgraph::stable_graph::StableGraph::<usize, i64, Ty, u32>::with_capacity(0, 0);
     let ids: Vec<_> = (0..m).map(|i| other.add_node(i)).collect();
     for i in 1..m {
@@ -250,22 +1025,396 @@ fn foreign_space_stable<Ty: petgraph::EdgeType>(rng: &mut Rng, n: usize) -> Opti
     Some((sp, m))
 }
 
-fn case_graph<Ty: petgraph::EdgeType, Ix: petgraph::graph::IndexType>(ctx: &mut Ctx, rng: &mut Rng, ag: &AG, node_order: &[usize], edge_order: &[usize], inv: &[usize], name: &str) {
-    let n = ag.n;
+// ------------------------------------------------------------------------------------------------
+// Graph (every index type): plain, behind an adaptor, and a second phase after a mutation of the
+// graph with the SAME workspaces
+
+/// the abstract graph a `Graph` whose node weights are the abstract ids 0..n presents (edge id =
+/// concrete edge index)
+fn ag_of_graph<Ty: Et, Ix: petgraph::graph::IndexType>(g: &petgraph::Graph<usize, i64, Ty, Ix>) -> AG {
+    AG { directed: g.is_directed(), n: g.node_count(), edges: g.raw_edges().iter().map(|e| (g[e.source()], g[e.target()], e.weight)).collect() }
+}
+
+fn mutate_graph<Ty: Et, Ix: petgraph::graph::IndexType>(rng: &mut Rng, g: &mut petgraph::Graph<usize, i64, Ty, Ix>) -> &'static str {
+    let n = g.node_count();
+    let cap = <Ix as petgraph::graph::IndexType>::max().index();
+    match rng.below(8) {
+        0 => {
+            g.reverse();
+            "reverse"
+        }
+        1 => {
+            g.clear_edges();
+            "clear_edges"
+        }
+        2 if n > 0 => {
+            // the node with the largest abstract id goes, so that the ids stay 0..n-1; another node
+            // takes over its index
+            let x = g.node_indices().find(|&i| g[i] == n - 1).unwrap();
+            g.remove_node(x);
+            "remove_node"
+        }
+        3 => {
+            // clear, then reuse the value for a new small graph
+            g.clear();
+            let k = rng.below(5);
+            let ids: Vec<_> = (0..k).map(|i| g.add_node(i)).collect();
+            for _ in 0..rng.below(2 * k + 1) {
+                let (a, b) = (ids[rng.below(k)], ids[rng.below(k)]);
+                g.add_edge(a, b, rng.range(-3, 4));
+            }
+            "clear+rebuild"
+        }
+        4 => {
+            let thr = rng.range(-2, 3);
+            g.retain_edges(|gr, e| gr[e] >= thr);
+            "retain_edges"
+        }
+        5 if n > 0 => {
+            // reverse, then remove
+            g.reverse();
+            let x = g.node_indices().find(|&i| g[i] == n - 1).unwrap();
+            g.remove_node(x);
+            "reverse+remove_node"
+        }
+        6 => {
+            // clone, then mutate both: the clone loses its edges, the original is reversed; then (half of
+            // the time) the original takes the clone's content over by clone_from
+            let mut c = g.clone();
+            c.clear_edges();
+            g.reverse();
+            if rng.chance(50) {
+                g.clone_from(&c);
+                "clone+clone_from"
+            } else {
+                "clone+reverse"
+            }
+        }
+        _ => {
+            let k = 1 + rng.below(3);
+            for i in 0..k {
+                if g.node_count() < cap {
+                    let x = g.add_node(n + i);
+                    if g.edge_count() + 2 < cap {
+                        let y = petgraph::graph::NodeIndex::<Ix>::new(rng.below(g.node_count()));
+                        g.add_edge(x, y, rng.range(-3, 4));
+                        if rng.chance(50) {
+                            g.add_edge(y, x, rng.range(-3, 4));
+                        }
+                    }
+                }
+            }
+            "grow"
+        }
+    }
+}
+
+/// a Graph behind one adaptor (instantiated for the index types u32 and u8 only: every adaptor view is a
+/// separate instance of every generic function above)
+fn case_graph_adapt<Ty: Et, Ix: petgraph::graph::IndexType>(ctx: &mut Ctx, rng: &mut Rng, ag: &AG, node_order: &[usize], edge_order: &[usize], inv: &[usize], name: &str) {
     let e = enc_graph::<Ty, Ix>(ag, node_order, edge_order);
+    let cap = <Ix as petgraph::graph::IndexType>::max().index();
+    let xg = XG::of(ag);
+    let prime = prime_graph::<Ix>(other_size(rng, ag.n, cap));
     let g = &e.g;
     let abs = |x: petgraph::graph::NodeIndex<Ix>| g[x];
     let conc = |a: usize| petgraph::graph::NodeIndex::<Ix>::new(inv[a]);
-    ctx.line(&format!("{} enc={}", view_line(ag, g, &abs, &|er, _| e.eid[EdgeRef::id(&er).index()]), name), "ok");
-    run_basic(ctx, rng, g, n, ag.directed, &abs, &conc);
-    let sp = foreign_space::<Ty, Ix>(rng, n);
-    run_directed(ctx, rng, g, n, &abs, &conc, sp);
-    run_cc(ctx, g, &abs);
-    run_cycu(ctx, g, &abs);
-    run_cond(ctx, &e);
+    let meta = Meta::plain(name, &xg);
+    adapt_full!(d1, ctx, rng, g, &xg, &abs, &conc, &meta, &prime, yes);
 }
 
-fn case_ty<Ty: petgraph::EdgeType>(ctx: &mut Ctx, rng: &mut Rng, ag: &AG) {
+fn case_graph<Ty: Et, Ix: petgraph::graph::IndexType>(ctx: &mut Ctx, rng: &mut Rng, ag: &AG, node_order: &[usize], edge_order: &[usize], inv: &[usize], name: &str) {
+    let n = ag.n;
+    let e = enc_graph::<Ty, Ix>(ag, node_order, edge_order);
+    let cap = <Ix as petgraph::graph::IndexType>::max().index();
+    let xg = XG::of(ag);
+    let prime = prime_graph::<Ix>(other_size(rng, n, cap));
+    // plain; the workspaces outlive a mutation of the graph
+    let mut g0 = e.g;
+    let mut tj = TarjanScc::new();
+    let mut space;
+    let mut old_n;
+    {
+        let g = &g0;
+        let abs = |x: petgraph::graph::NodeIndex<Ix>| g[x];
+        let conc = |a: usize| petgraph::graph::NodeIndex::<Ix>::new(inv[a]);
+        ctx.line(&format!("{} enc={}", view_line(ag, g, &abs, &|er, _| e.eid[EdgeRef::id(&er).index()]), name), "ok");
+        run_basic(ctx, rng, g, &xg.ids, !ag.directed, &abs, &conc);
+        laws_basic(ctx, g, &xg.ids, &conc, &prime);
+        let sp = foreign_space::<Ty, Ix>(rng, n);
+        space = make_space(ctx, rng, g, sp);
+        run_directed(ctx, rng, g, &xg.ids, &abs, &conc, &mut space);
+        laws_directed(ctx, rng, g, &xg.ids, &conc, &mut space);
+        run_cc(ctx, g, &abs);
+        run_cycu(ctx, g, &abs);
+        run_cond(ctx, g, &e.eid);
+        laws_cond(ctx, g);
+        let _ = catch(|| tj.run(g, |_| {}));
+        old_n = g.node_count();
+    }
+    // second phase: mutate the graph, keep the TarjanScc and the DfsSpace
+    let rounds = if rng.chance(35) { 1 + rng.below(2) } else { 0 };
+    for _ in 0..rounds {
+        let what = mutate_graph(rng, &mut g0);
+        let g = &g0;
+        let ag2 = ag_of_graph(g);
+        let xg2 = XG::of(&ag2);
+        let abs = |x: petgraph::graph::NodeIndex<Ix>| g[x];
+        let cidx: Vec<_> = { let mut v = vec![petgraph::graph::NodeIndex::<Ix>::new(0); ag2.n]; for x in g.node_indices() { v[g[x]] = x; } v };
+        let conc = |a: usize| cidx[a];
+        let eid: Vec<usize> = (0..g.edge_count()).collect();
+        ctx.line(&format!("{} enc={} after={}", view_line(&ag2, g, &abs, &|er, _| EdgeRef::id(&er).index()), name, what), "ok");
+        // the TarjanScc that ran on the graph before the mutation
+        let r = catch(|| {
+            let fresh = tarjan_scc(g);
+            let mut c: Vec<Vec<petgraph::graph::NodeIndex<Ix>>> = Vec::new();
+            tj.run(g, |s| c.push(s.to_vec()));
+            if c != fresh {
+                return Some(format!("after {} the TarjanScc used before gives {:?}, a new one gives {:?}", what, c, fresh));
+            }
+            let nodes: Vec<_> = g.node_indices().collect();
+            let comp: Vec<Option<usize>> = nodes.iter().map(|x| c.iter().position(|k| k.contains(x))).collect();
+            let idx: Vec<usize> = nodes.iter().map(|&x| tj.node_component_index(g, x)).collect();
+            for i in 0..nodes.len() {
+                for j in 0..nodes.len() {
+                    if (idx[i] == idx[j]) != (comp[i] == comp[j]) {
+                        return Some(format!("after {} node_component_index of {:?} and {:?} does not agree with the components {:?}", what, nodes[i], nodes[j], c));
+                    }
+                }
+            }
+            None
+        });
+        law(ctx, &format!("tarjan-after-mutation {}", old_n), r);
+        run_basic(ctx, rng, g, &xg2.ids, !ag2.directed, &abs, &conc);
+        // the DfsSpace that was used on the graph before the mutation
+        ctx.line(&format!("space foreign {}", old_n), "-");
+        run_directed(ctx, rng, g, &xg2.ids, &abs, &conc, &mut space);
+        run_cc(ctx, g, &abs);
+        run_cycu(ctx, g, &abs);
+        run_cond(ctx, g, &eid);
+        old_n = old_n.max(g.node_count());
+    }
+}
+
+/// GraphMap with any hasher
+fn enc_map_s<Ty: Et, S: std::hash::BuildHasher + Default + Clone>(ag: &AG, node_order: &[usize], edge_order: &[usize]) -> petgraph::graphmap::GraphMap<usize, i64, Ty, S> {
+    let mut g = petgraph::graphmap::GraphMap::<usize, i64, Ty, S>::with_capacity_and_hasher(0, 0, S::default());
+    for &a in node_order {
+        g.add_node(a);
+    }
+    for &k in edge_order {
+        let (a, b, w) = ag.edges[k];
+        g.add_edge(a, b, w);
+    }
+    g
+}
+
+/// MatrixGraph with any hasher (removed ids as in `enc_matrix`)
+fn enc_matrix_s<Ty: Et, S: std::hash::BuildHasher + Default + Clone>(rng: &mut Rng, ag: &AG, node_order: &[usize], edge_order: &[usize]) -> petgraph::matrix_graph::MatrixGraph<usize, i64, S, Ty> {
+    let mut g = petgraph::matrix_graph::MatrixGraph::<usize, i64, S, Ty>::with_capacity_and_hasher(rng.below(5), S::default());
+    let mut cidx = vec![Default::default(); ag.n];
+    let mut dummies = Vec::new();
+    for &a in node_order {
+        let mut run = 0;
+        while run < 3 && rng.chance(35) {
+            dummies.push(g.add_node(usize::MAX));
+            run += 1;
+        }
+        cidx[a] = g.add_node(a);
+    }
+    for d in dummies {
+        g.remove_node(d);
+    }
+    for &k in edge_order {
+        let (a, b, w) = ag.edges[k];
+        g.add_edge(cidx[a], cidx[b], w);
+    }
+    g
+}
+
+fn case_map_adapt<Ty: Et>(ctx: &mut Ctx, rng: &mut Rng, ag: &AG, node_order: &[usize], edge_order: &[usize]) {
+    let g0 = enc_map_s::<Ty, std::collections::hash_map::RandomState>(ag, node_order, edge_order);
+    let g = &g0;
+    let xg = XG::of(ag);
+    let abs = |x: usize| x;
+    let conc = |a: usize| a;
+    let prime = prime_map(other_size(rng, ag.n, usize::MAX));
+    let meta = Meta::plain("map", &xg);
+    adapt_full!(d1, ctx, rng, g, &xg, &abs, &conc, &meta, &prime, yes);
+}
+
+fn case_map<Ty: Et, S: std::hash::BuildHasher + Default + Clone>(ctx: &mut Ctx, rng: &mut Rng, ag: &AG, node_order: &[usize], edge_order: &[usize], name: &str) {
+    let n = ag.n;
+    let g0 = enc_map_s::<Ty, S>(ag, node_order, edge_order);
+    let g = &g0;
+    let xg = XG::of(ag);
+    let abs = |x: usize| x;
+    let conc = |a: usize| a;
+    let prime = prime_map(other_size(rng, n, usize::MAX));
+    ctx.line(&format!("{} enc={}", view_line(ag, g, &abs, &|er, used| eid_by_lookup(ag, EdgeRef::source(&er), EdgeRef::target(&er), *EdgeRef::weight(&er), used)), name), "ok");
+    run_basic(ctx, rng, g, &xg.ids, !ag.directed, &abs, &conc);
+    laws_basic(ctx, g, &xg.ids, &conc, &prime);
+    let mut space = make_space(ctx, rng, g, None);
+    run_directed(ctx, rng, g, &xg.ids, &abs, &conc, &mut space);
+    laws_directed(ctx, rng, g, &xg.ids, &conc, &mut space);
+    run_cc(ctx, g, &abs);
+    run_cycu(ctx, g, &abs);
+    // ids that are not nodes of the map
+    let stale: Vec<(usize, usize)> = vec![(n + 3, n + 3), (n + 7, n + 7)];
+    run_stale(ctx, rng, g, &xg.ids, &conc, &stale);
+}
+
+fn case_stable<Ty: Et>(ctx: &mut Ctx, rng: &mut Rng, ag: &AG, node_order: &[usize], edge_order: &[usize], adaptor: bool) {
+    let n = ag.n;
+    let e = enc_stable::<Ty, u32>(rng, ag, node_order, edge_order, true);
+    let g = &e.g;
+    let xg = XG::of(ag);
+    let cidx: Vec<_> = { let mut v = vec![petgraph::graph::NodeIndex::<u32>::new(0); n]; for x in g.node_indices() { v[g[x]] = x; } v };
+    let abs = |x: petgraph::graph::NodeIndex<u32>| g[x];
+    let conc = |a: usize| cidx[a];
+    let prime = prime_graph::<u32>(other_size(rng, n, usize::MAX));
+    if adaptor {
+        let meta = Meta::plain("stable", &xg);
+        adapt_full!(d1, ctx, rng, g, &xg, &abs, &conc, &meta, &prime, no);
+        return;
+    }
+    ctx.line(&format!("{} enc=stable", view_line(ag, g, &abs, &|er, _| e.eid[EdgeRef::id(&er).index()])), "ok");
+    run_basic(ctx, rng, g, &xg.ids, !ag.directed, &abs, &conc);
+    laws_basic(ctx, g, &xg.ids, &conc, &prime);
+    let sp = foreign_space_stable::<Ty>(rng, n);
+    let mut space = make_space(ctx, rng, g, sp);
+    run_directed(ctx, rng, g, &xg.ids, &abs, &conc, &mut space);
+    laws_directed(ctx, rng, g, &xg.ids, &conc, &mut space);
+    run_cycu(ctx, g, &abs);
+    // vacancies below node_bound
+    let stale: Vec<(usize, petgraph::graph::NodeIndex<u32>)> = (0..g.node_bound()).map(petgraph::graph::NodeIndex::<u32>::new).filter(|&i| !g.contains_node(i)).map(|i| (1000 + i.index(), i)).collect();
+    run_stale(ctx, rng, g, &xg.ids, &conc, &stale);
+}
+
+/// undirected MatrixGraph has no IntoNeighborsDirected (the directed one is a separate case)
+fn case_matrix_u_adapt(ctx: &mut Ctx, rng: &mut Rng, ag: &AG, node_order: &[usize], edge_order: &[usize]) {
+    let n = ag.n;
+    let g0 = enc_matrix_s::<Undirected, std::collections::hash_map::RandomState>(rng, ag, node_order, edge_order);
+    let g = &g0;
+    let xg = XG::of(ag);
+    let cidx: Vec<_> = { let mut v = vec![petgraph::matrix_graph::NodeIndex::new(0); n]; for x in g.node_identifiers() { v[*g.node_weight(x)] = x; } v };
+    let abs = |x: petgraph::matrix_graph::NodeIndex| *g.node_weight(x);
+    let conc = |a: usize| cidx[a];
+    let prime = prime_matrix(other_size(rng, n, 200));
+    let meta = Meta::plain("matrix", &xg);
+    adapt_out!(ctx, rng, g, &xg, &abs, &conc, &meta, &prime, no);
+}
+
+fn case_matrix_u<S: std::hash::BuildHasher + Default + Clone>(ctx: &mut Ctx, rng: &mut Rng, ag: &AG, node_order: &[usize], edge_order: &[usize], name: &str) {
+    let n = ag.n;
+    let g0 = enc_matrix_s::<Undirected, S>(rng, ag, node_order, edge_order);
+    let g = &g0;
+    let xg = XG::of(ag);
+    let cidx: Vec<_> = { let mut v = vec![petgraph::matrix_graph::NodeIndex::new(0); n]; for x in g.node_identifiers() { v[*g.node_weight(x)] = x; } v };
+    let abs = |x: petgraph::matrix_graph::NodeIndex| *g.node_weight(x);
+    let conc = |a: usize| cidx[a];
+    let prime = prime_matrix(other_size(rng, n, 200));
+    ctx.line(&format!("{} enc={}", view_line_out_only(ag, g, &abs, &|er, used| { let (s, t) = (abs(EdgeRef::source(&er)), abs(EdgeRef::target(&er))); eid_by_lookup(ag, s, t, *EdgeRef::weight(&er), used) }), name), "ok");
+    run_basic(ctx, rng, g, &xg.ids, !ag.directed, &abs, &conc);
+    laws_basic(ctx, g, &xg.ids, &conc, &prime);
+    run_reuse_basic(ctx, rng, g, &xg.ids, &conc);
+    run_cycu(ctx, g, &abs);
+}
+
+/// directed MatrixGraph implements the directed traits too
+/// a directed MatrixGraph behind up to two adaptors
+fn case_matrix_d_adapt(ctx: &mut Ctx, rng: &mut Rng, ag: &AG) {
+    let n = ag.n;
+    let node_order = random_perm(rng, n);
+    let edge_order = random_perm(rng, ag.edges.len());
+    let g0 = enc_matrix_s::<Directed, std::collections::hash_map::RandomState>(rng, ag, &node_order, &edge_order);
+    let g = &g0;
+    let xg = XG::of(ag);
+    let cidx: Vec<_> = { let mut v = vec![petgraph::matrix_graph::NodeIndex::new(0); n]; for x in g.node_identifiers() { v[*g.node_weight(x)] = x; } v };
+    let abs = |x: petgraph::matrix_graph::NodeIndex| *g.node_weight(x);
+    let conc = |a: usize| cidx[a];
+    let prime = prime_matrix(other_size(rng, n, 200));
+    let meta = Meta::plain("matrixd", &xg);
+    adapt_full!(d2, ctx, rng, g, &xg, &abs, &conc, &meta, &prime, no);
+}
+
+fn case_matrix_d<S: std::hash::BuildHasher + Default + Clone>(ctx: &mut Ctx, rng: &mut Rng, ag: &AG, name: &str) {
+    let n = ag.n;
+    let node_order = random_perm(rng, n);
+    let edge_order = random_perm(rng, ag.edges.len());
+    let g0 = enc_matrix_s::<Directed, S>(rng, ag, &node_order, &edge_order);
+    let g = &g0;
+    let xg = XG::of(ag);
+    let cidx: Vec<_> = { let mut v = vec![petgraph::matrix_graph::NodeIndex::new(0); n]; for x in g.node_identifiers() { v[*g.node_weight(x)] = x; } v };
+    let abs = |x: petgraph::matrix_graph::NodeIndex| *g.node_weight(x);
+    let conc = |a: usize| cidx[a];
+    let prime = prime_matrix(other_size(rng, n, 200));
+    // edges_directed(_, Incoming) of MatrixGraph reports swapped endpoints (open finding D6, judged by
+    // C06): the view takes the other endpoint positionally, so it is the one the algorithms see
+    ctx.line(&format!("{} enc={}", view_line(ag, g, &abs, &|er, used| { let (s, t) = (abs(EdgeRef::source(&er)), abs(EdgeRef::target(&er))); let k = eid_by_lookup(ag, s, t, *EdgeRef::weight(&er), used); if k != usize::MAX { k } else { eid_by_lookup(ag, t, s, *EdgeRef::weight(&er), used) } }), name), "ok");
+    run_basic(ctx, rng, g, &xg.ids, false, &abs, &conc);
+    laws_basic(ctx, g, &xg.ids, &conc, &prime);
+    let mut space = make_space(ctx, rng, g, None);
+    run_directed(ctx, rng, g, &xg.ids, &abs, &conc, &mut space);
+    laws_directed(ctx, rng, g, &xg.ids, &conc, &mut space);
+    run_cycu(ctx, g, &abs);
+}
+
+fn case_csr<Ty: Et>(ctx: &mut Ctx, rng: &mut Rng, ag: &AG, node_order: &[usize], edge_order: &[usize], inv: &[usize], adaptor: bool) {
+    let n = ag.n;
+    let g0 = enc_csr::<Ty>(ag, node_order, edge_order);
+    let g = &g0;
+    let xg = XG::of(ag);
+    let abs = |x: u32| g[x];
+    let conc = |a: usize| inv[a] as u32;
+    let prime = prime_u32(other_size(rng, n, usize::MAX));
+    if adaptor {
+        let meta = Meta::plain("csr", &xg);
+        adapt_out!(ctx, rng, g, &xg, &abs, &conc, &meta, &prime, yes);
+        return;
+    }
+    ctx.line(&format!("{} enc=csr", view_line_out_only(ag, g, &abs, &|er, used| eid_by_lookup(ag, abs(EdgeRef::source(&er)), abs(EdgeRef::target(&er)), *EdgeRef::weight(&er), used))), "ok");
+    run_basic(ctx, rng, g, &xg.ids, !ag.directed, &abs, &conc);
+    laws_basic(ctx, g, &xg.ids, &conc, &prime);
+    run_reuse_basic(ctx, rng, g, &xg.ids, &conc);
+    run_cc(ctx, g, &abs);
+    run_cycu(ctx, g, &abs);
+}
+
+fn case_list(ctx: &mut Ctx, rng: &mut Rng, ag: &AG, node_order: &[usize], edge_order: &[usize], inv: &[usize], adaptor: bool) {
+    let n = ag.n;
+    let g0 = enc_list(ag, node_order, edge_order);
+    let g = &g0;
+    let xg = XG::of(ag);
+    let abs = |x: u32| node_order[x as usize];
+    let conc = |a: usize| inv[a] as u32;
+    let prime = prime_u32(other_size(rng, n, usize::MAX));
+    if adaptor {
+        let meta = Meta::plain("list", &xg);
+        adapt_out!(ctx, rng, g, &xg, &abs, &conc, &meta, &prime, yes);
+        return;
+    }
+    ctx.line(&format!("{} enc=list", view_line_out_only(ag, g, &abs, &|er, used| eid_by_lookup(ag, abs(EdgeRef::source(&er)), abs(EdgeRef::target(&er)), *EdgeRef::weight(&er), used))), "ok");
+    run_basic(ctx, rng, g, &xg.ids, !ag.directed, &abs, &conc);
+    laws_basic(ctx, g, &xg.ids, &conc, &prime);
+    run_reuse_basic(ctx, rng, g, &xg.ids, &conc);
+    run_cc(ctx, g, &abs);
+    run_cycu(ctx, g, &abs);
+}
+
+/// Graph<_, _, Directed, u32> behind up to two adaptors
+fn case_graph_deep(ctx: &mut Ctx, rng: &mut Rng, ag: &AG, node_order: &[usize], edge_order: &[usize], inv: &[usize]) {
+    let e = enc_graph::<Directed, u32>(ag, node_order, edge_order);
+    let g = &e.g;
+    let xg = XG::of(ag);
+    let abs = |x: petgraph::graph::NodeIndex<u32>| g[x];
+    let conc = |a: usize| petgraph::graph::NodeIndex::<u32>::new(inv[a]);
+    let prime = prime_graph::<u32>(other_size(rng, ag.n, usize::MAX));
+    let meta = Meta::plain("graph32", &xg);
+    adapt_full!(d2, ctx, rng, g, &xg, &abs, &conc, &meta, &prime, yes);
+}
+
+fn case_ty<Ty: Et>(ctx: &mut Ctx, rng: &mut Rng, ag: &AG, force: Option<usize>) {
     let n = ag.n;
     let node_order = random_perm(rng, n);
     let edge_order = random_perm(rng, ag.edges.len());
@@ -274,122 +1423,62 @@ fn case_ty<Ty: petgraph::EdgeType>(ctx: &mut Ctx, rng: &mut Rng, ag: &AG) {
         inv[a] = i;
     }
     let simple = ag.is_simple();
-    let mut choices = vec![0, 0, 1, 2, 2, 7];
+    let adaptor = rng.chance(40);
+    // 0 graph32, 1 graph8, 2 stable, 3 matrix (undirected), 4 map, 5 csr, 6 list, 8 graph16, 9 graph-usize,
+    // 10 map with another hasher, 11 matrix with another hasher
+    let mut choices = vec![0, 0, 0, 1, 2, 2, 8, 9];
     if simple {
-        choices.extend([3, 4, 5]);
+        choices.extend([4, 5, 10]);
         if ag.directed {
             choices.push(6);
+        } else {
+            choices.extend([3, 11]);
         }
     }
-    match *rng.pick(&choices) {
+    let pick = *rng.pick(&choices);
+    match force.unwrap_or(pick) {
+        0 if adaptor && ag.directed && rng.chance(50) => case_graph_deep(ctx, rng, ag, &node_order, &edge_order, &inv),
+        0 if adaptor => case_graph_adapt::<Ty, u32>(ctx, rng, ag, &node_order, &edge_order, &inv, "graph32"),
         0 => case_graph::<Ty, u32>(ctx, rng, ag, &node_order, &edge_order, &inv, "graph32"),
-        1 => case_graph::<Ty, u8>(ctx, rng, ag, &node_order, &edge_order, &inv, "graph8"),
-        2 => {
-            let e = enc_stable::<Ty, u32>(rng, ag, &node_order, &edge_order, true);
-            let g = &e.g;
-            let cidx: Vec<_> = { let mut v = vec![petgraph::graph::NodeIndex::<u32>::new(0); n]; for x in g.node_indices() { v[g[x]] = x; } v };
-            let abs = |x: petgraph::graph::NodeIndex<u32>| g[x];
-            let conc = |a: usize| cidx[a];
-            ctx.line(&format!("{} enc=stable", view_line(ag, g, &abs, &|er, _| e.eid[EdgeRef::id(&er).index()])), "ok");
-            run_basic(ctx, rng, g, n, ag.directed, &abs, &conc);
-            let sp = foreign_space_stable::<Ty>(rng, n);
-            run_directed(ctx, rng, g, n, &abs, &conc, sp);
-            run_cycu(ctx, g, &abs);
+        1 if ag.n <= 255 && ag.edges.len() <= 255 && adaptor => case_graph_adapt::<Ty, u8>(ctx, rng, ag, &node_order, &edge_order, &inv, "graph8"),
+        1 if ag.n <= 255 && ag.edges.len() <= 255 => case_graph::<Ty, u8>(ctx, rng, ag, &node_order, &edge_order, &inv, "graph8"),
+        1 | 8 => case_graph::<Ty, u16>(ctx, rng, ag, &node_order, &edge_order, &inv, "graph16"),
+        9 => case_graph::<Ty, usize>(ctx, rng, ag, &node_order, &edge_order, &inv, "graphus"),
+        2 => case_stable::<Ty>(ctx, rng, ag, &node_order, &edge_order, adaptor),
+        3 if adaptor => case_matrix_u_adapt(ctx, rng, ag, &node_order, &edge_order),
+        3 => case_matrix_u::<std::collections::hash_map::RandomState>(ctx, rng, ag, &node_order, &edge_order, "matrix"),
+        11 => case_matrix_u::<fxhash::FxBuildHasher>(ctx, rng, ag, &node_order, &edge_order, "matrixfx"),
+        4 if adaptor => case_map_adapt::<Ty>(ctx, rng, ag, &node_order, &edge_order),
+        4 => case_map::<Ty, std::collections::hash_map::RandomState>(ctx, rng, ag, &node_order, &edge_order, "map"),
+        10 => {
+            if rng.chance(50) {
+                case_map::<Ty, fxhash::FxBuildHasher>(ctx, rng, ag, &node_order, &edge_order, "mapfx")
+            } else {
+                case_map::<Ty, ahash::RandomState>(ctx, rng, ag, &node_order, &edge_order, "mapah")
+            }
         }
-        3 => {
-            // undirected MatrixGraph has no IntoNeighborsDirected (the directed one is a separate case)
-            let g0 = enc_matrix::<Ty>(rng, ag, &node_order, &edge_order, true);
-            let g = &g0;
-            let cidx: Vec<_> = { let mut v = vec![petgraph::matrix_graph::NodeIndex::new(0); n]; for x in g.node_identifiers() { v[*g.node_weight(x)] = x; } v };
-            let abs = |x: petgraph::matrix_graph::NodeIndex| *g.node_weight(x);
-            let conc = |a: usize| cidx[a];
-            ctx.line(&format!("{} enc=matrix", view_line_out_only(ag, g, &abs, &|er, used| { let (s, t) = (abs(EdgeRef::source(&er)), abs(EdgeRef::target(&er))); eid_by_lookup(ag, s, t, *EdgeRef::weight(&er), used) })), "ok");
-            run_basic(ctx, rng, g, n, ag.directed, &abs, &conc);
-            run_reuse_basic(ctx, rng, g, n, &conc);
-            run_cycu(ctx, g, &abs);
-        }
-        4 => {
-            let g0 = enc_map::<Ty>(ag, &node_order, &edge_order);
-            let g = &g0;
-            let abs = |x: usize| x;
-            let conc = |a: usize| a;
-            ctx.line(&format!("{} enc=map", view_line(ag, g, &abs, &|er, used| eid_by_lookup(ag, EdgeRef::source(&er), EdgeRef::target(&er), *EdgeRef::weight(&er), used))), "ok");
-            run_basic(ctx, rng, g, n, ag.directed, &abs, &conc);
-            run_directed(ctx, rng, g, n, &abs, &conc, None);
-            run_cc(ctx, g, &abs);
-            run_cycu(ctx, g, &abs);
-        }
-        5 => {
-            let g0 = enc_csr::<Ty>(ag, &node_order, &edge_order);
-            let g = &g0;
-            let abs = |x: u32| g[x];
-            let conc = |a: usize| inv[a] as u32;
-            ctx.line(&format!("{} enc=csr", view_line_out_only(ag, g, &abs, &|er, used| eid_by_lookup(ag, abs(EdgeRef::source(&er)), abs(EdgeRef::target(&er)), *EdgeRef::weight(&er), used))), "ok");
-            run_basic(ctx, rng, g, n, ag.directed, &abs, &conc);
-            run_reuse_basic(ctx, rng, g, n, &conc);
-            run_cc(ctx, g, &abs);
-            run_cycu(ctx, g, &abs);
-        }
-        6 => {
-            let g0 = enc_list(ag, &node_order, &edge_order);
-            let g = &g0;
-            let abs = |x: u32| node_order[x as usize];
-            let conc = |a: usize| inv[a] as u32;
-            ctx.line(&format!("{} enc=list", view_line_out_only(ag, g, &abs, &|er, used| eid_by_lookup(ag, abs(EdgeRef::source(&er)), abs(EdgeRef::target(&er)), *EdgeRef::weight(&er), used))), "ok");
-            run_basic(ctx, rng, g, n, ag.directed, &abs, &conc);
-            run_reuse_basic(ctx, rng, g, n, &conc);
-            run_cc(ctx, g, &abs);
-            run_cycu(ctx, g, &abs);
-        }
-        _ => {
-            // Reversed(&Graph): the abstract graph is the reverse
-            let e = enc_graph::<Ty, u32>(ag, &node_order, &edge_order);
-            let rag = AG { directed: ag.directed, n: ag.n, edges: ag.edges.iter().map(|&(a, b, w)| (b, a, w)).collect() };
-            let g = Reversed(&e.g);
-            let abs = |x: petgraph::graph::NodeIndex<u32>| e.g[x];
-            let conc = |a: usize| petgraph::graph::NodeIndex::<u32>::new(inv[a]);
-            ctx.line(&format!("{} enc=reversed", view_line(&rag, g, &abs, &|er, _| e.eid[EdgeRef::id(&er).index()])), "ok");
-            run_basic(ctx, rng, g, n, ag.directed, &abs, &conc);
-            run_directed(ctx, rng, g, n, &abs, &conc, None);
-            run_cc(ctx, g, &abs);
-            run_cycu(ctx, g, &abs);
-        }
+        5 => case_csr::<Ty>(ctx, rng, ag, &node_order, &edge_order, &inv, adaptor),
+        _ => case_list(ctx, rng, ag, &node_order, &edge_order, &inv, adaptor),
     }
-}
-
-/// directed MatrixGraph implements the directed traits too
-fn case_matrix_directed(ctx: &mut Ctx, rng: &mut Rng, ag: &AG) {
-    let n = ag.n;
-    let node_order = random_perm(rng, n);
-    let edge_order = random_perm(rng, ag.edges.len());
-    let g0 = enc_matrix::<Directed>(rng, ag, &node_order, &edge_order, true);
-    let g = &g0;
-    let cidx: Vec<_> = { let mut v = vec![petgraph::matrix_graph::NodeIndex::new(0); n]; for x in g.node_identifiers() { v[*g.node_weight(x)] = x; } v };
-    let abs = |x: petgraph::matrix_graph::NodeIndex| *g.node_weight(x);
-    let conc = |a: usize| cidx[a];
-    // edges_directed(_, Incoming) of MatrixGraph reports swapped endpoints (open finding D6, judged by
-    // C06): the view takes the other endpoint positionally, so it is the one the algorithms see
-    ctx.line(&format!("{} enc=matrixd", view_line(ag, g, &abs, &|er, used| { let (s, t) = (abs(EdgeRef::source(&er)), abs(EdgeRef::target(&er))); let k = eid_by_lookup(ag, s, t, *EdgeRef::weight(&er), used); if k != usize::MAX { k } else { eid_by_lookup(ag, t, s, *EdgeRef::weight(&er), used) } })), "ok");
-    run_basic(ctx, rng, g, n, true, &abs, &conc);
-    run_directed(ctx, rng, g, n, &abs, &conc, None);
-    run_cycu(ctx, g, &abs);
 }
 
 /// C09's own family: blocks that are strongly connected (a cycle plus chords, or a single node with
 /// or without a self-loop) joined by edges that respect a hidden order of the blocks, then relabelled:
 /// several components of several nodes, where the order of the components matters.  Undirected:
 /// blocks are trees / odd or even cycles (bipartite or not), no edges between blocks.
-fn gen_blocks(rng: &mut Rng, directed: bool, o: GenOpts) -> AG {
-    let n = 1 + rng.below(o.max_n);
+fn gen_blocks(rng: &mut Rng, directed: bool, o: GenOpts, n: usize, max_block: usize, cross: u32, max_edges: usize) -> AG {
     let mut blocks: Vec<Vec<usize>> = Vec::new();
     let mut i = 0;
     while i < n {
-        let k = 1 + rng.below(4.min(n - i));
+        let k = 1 + rng.below(max_block.min(n - i));
         blocks.push((i..i + k).collect());
         i += k;
     }
     let mut edges: Vec<(usize, usize, i64)> = Vec::new();
     let mut push = |rng: &mut Rng, edges: &mut Vec<(usize, usize, i64)>, a: usize, b: usize| {
+        if edges.len() >= max_edges {
+            return;
+        }
         if a == b && !o.loops {
             return;
         }
@@ -419,8 +1508,9 @@ fn gen_blocks(rng: &mut Rng, directed: bool, o: GenOpts) -> AG {
         let mut order: Vec<usize> = (0..blocks.len()).collect();
         rng.shuffle(&mut order);
         for x in 0..order.len() {
-            for y in (x + 1)..order.len() {
-                if rng.chance(35) {
+            // a bounded number of later blocks, so that large graphs stay sparse
+            for y in (x + 1)..order.len().min(x + 9) {
+                if rng.chance(cross) {
                     let (bx, by) = (&blocks[order[x]], &blocks[order[y]]);
                     let (a, b) = (bx[rng.below(bx.len())], by[rng.below(by.len())]);
                     push(rng, &mut edges, a, b);
@@ -434,16 +1524,75 @@ fn gen_blocks(rng: &mut Rng, directed: bool, o: GenOpts) -> AG {
     AG { directed, n, edges }.relabel(&perm)
 }
 
+/// a hub with `k` successors (31 / 32 / 33: the linear / binary search cut-off of Csr rows) plus a sparse rest
+fn gen_wide(rng: &mut Rng, directed: bool, o: GenOpts, k: usize) -> AG {
+    let n = k + 1 + rng.below(3);
+    let mut edges: Vec<(usize, usize, i64)> = Vec::new();
+    for b in 1..=k {
+        edges.push((0, b, rng.range(o.wlo, o.whi)));
+    }
+    for _ in 0..rng.below(6) {
+        let (a, b) = (1 + rng.below(n - 1), rng.below(n));
+        if a != b && !edges.iter().any(|&(x, y, _)| (x == a && y == b) || (x == b && y == a)) {
+            edges.push((a, b, rng.range(o.wlo, o.whi)));
+        }
+    }
+    rng.shuffle(&mut edges);
+    let perm = random_perm(rng, n);
+    AG { directed, n, edges }.relabel(&perm)
+}
+
+/// node counts around the limits the code has: visit-map words (32 / 64 / 128 bits), the capacity of `u8`
+/// indices (255 nodes: index 255 is `NodeIndex::end()`) and the first sizes `u8` cannot hold
+const LIMITS: [usize; 13] = [31, 32, 33, 63, 64, 65, 127, 128, 129, 254, 255, 256, 257];
+
 pub fn run(ctx: &mut Ctx, case: u64) {
     let mut rng = Rng::for_case(ctx.seed, "C09", case);
     let directed = rng.chance(62);
     let max_n = if ctx.tier_thorough { 11 } else { 8 };
     let opts = if rng.chance(55) { GenOpts::multi(max_n, -3, 4) } else { GenOpts { loops: rng.chance(40), wlo: 0, whi: 2, ..GenOpts::simple(max_n) } };
-    let (ag, fam) = if rng.chance(35) { (gen_blocks(&mut rng, directed, opts), "blocks") } else { let (g, f) = gen_graph(&mut rng, directed, opts); (g, family_name(f)) };
-    ctx.raw(&format!("case {} dir={} fam={} n={} m={}", case, directed as u8, fam, ag.n, ag.edges.len()));
-    if directed && ag.is_simple() && rng.chance(12) {
-        case_matrix_directed(ctx, &mut rng, &ag);
+    let profile = if cfg!(debug_assertions) { "debug" } else { "release" };
+    // corner sizes: no node at all, a single node (with self-loops), the limits, a wide row
+    let corner = rng.below(1000);
+    let mut force = None;
+    let (ag, fam) = if corner < 12 {
+        let n = *rng.pick(&LIMITS);
+        let o = GenOpts { parallel: rng.chance(50), ..opts };
+        // at most 255 edges, so that `u8` edge indices suffice too
+        let max_m = if rng.chance(30) { 255 } else { 200 + rng.below(56) };
+        if (n == 254 || n == 255) && rng.chance(60) {
+            force = Some(1);
+        }
+        (gen_blocks(&mut rng, directed, o, n, 6, 12, max_m), "limit")
+    } else if corner < 20 {
+        let k = *rng.pick(&[31usize, 32, 33]);
+        let o = GenOpts { loops: false, wlo: 0, whi: 2, ..GenOpts::simple(max_n) };
+        if rng.chance(50) {
+            force = Some(5);
+        }
+        (gen_wide(&mut rng, directed, o, k), "wide")
+    } else if corner < 45 {
+        (AG { directed, n: 0, edges: Vec::new() }, "no-node")
+    } else if corner < 85 {
+        let k = if opts.loops { rng.below(if opts.parallel { 4 } else { 2 }) } else { 0 };
+        (AG { directed, n: 1, edges: (0..k).map(|_| (0, 0, rng.range(opts.wlo, opts.whi))).collect() }, "one-node")
+    } else if rng.chance(35) {
+        let n = 1 + rng.below(opts.max_n);
+        (gen_blocks(&mut rng, directed, opts, n, 4, 35, usize::MAX), "blocks")
+    } else {
+        let (g, f) = gen_graph(&mut rng, directed, opts);
+        (g, family_name(f))
+    };
+    ctx.raw(&format!("case {} dir={} fam={} n={} m={} profile={}", case, directed as u8, fam, ag.n, ag.edges.len(), profile));
+    if force.is_none() && directed && ag.is_simple() && rng.chance(14) {
+        if rng.chance(50) {
+            case_matrix_d_adapt(ctx, &mut rng, &ag);
+        } else if rng.chance(30) {
+            case_matrix_d::<ahash::RandomState>(ctx, &mut rng, &ag, "matrixdah");
+        } else {
+            case_matrix_d::<std::collections::hash_map::RandomState>(ctx, &mut rng, &ag, "matrixd");
+        }
         return;
     }
-    with_ty!(directed, case_ty, ctx, &mut rng, &ag);
+    with_ty!(directed, case_ty, ctx, &mut rng, &ag, force);
 }
